@@ -35,7 +35,7 @@ def run_streams(out, mod, binary, tier, seed, only_request=None):
             if b is None:
                 continue
             cases = fw.run_stream(b, st["stream"], st.get("seed", seed), st["count"], st.get("extra", ()),
-                                  tag=out.prop + "-" + st["name"])
+                                  tag=out.prop + "-" + st["name"], pygen=st.get("pygen"))
         except Exception as e:  # harness or driver crashed: the correspondence cannot be established
             out.obligation("stream:" + st["name"], False, str(e))
             continue
